@@ -82,6 +82,32 @@ pub fn run_c02(ctx: &Ctx) -> i32 {
     )
 }
 
+/// A stack with more layers than the cel chunk's 16-bit layer field can name. Layers from 65536 on can
+/// never have a cel: their slots are absent whatever the low layers hold. Returns the number of extra layers.
+pub fn wide_stack(rng: &mut Rng) -> (Sprite, usize) {
+    let extra = *rng.pick(&[1usize, 2, 7, 300]);
+    let fmt = *rng.pick(&[Fmt::Rgba, Fmt::Gray]);
+    let mut sp = Sprite::blank(3, 2, fmt, 2);
+    for l in 0..65_536 + extra {
+        let mut ly = LayerM::image("");
+        // everything hidden except a few layers at either end, so that frames stay cheap to reference-render
+        ly.flags = if l < 2 || l >= 65_534 { 3 } else { 2 };
+        ly.opacity = if l % 2 == 0 { 255 } else { 200 };
+        sp.layers.push(ly);
+    }
+    let mut celled: Vec<u16> = (0..(extra.min(8) + 1) as u16).collect();
+    celled.extend([255u16, 256, 32_767, 32_768, 65_534, 65_535]);
+    for l in celled {
+        for f in 0..2u16 {
+            if f == 0 || rng.chance(1, 2) {
+                let px = gen::gen_pixels(rng, &sp, 2);
+                sp.cels.insert((f, l), CelM { x: (l % 2) as i16, y: f as i16, opacity: 128 + (l % 100) as u8, content: CelContentM::Image { w: 2, h: 1, pixels: px }, ud: Some(UserDataM { text: Some(format!("f{} l{}", f, l)), color: None }) });
+            }
+        }
+    }
+    (sp, extra)
+}
+
 /// dedicated C06 models
 fn c06_model(rng: &mut Rng, i: u64) -> (Sprite, PaletteProgram, &'static str) {
     match i % 4 {
@@ -133,6 +159,10 @@ fn c06_model(rng: &mut Rng, i: u64) -> (Sprite, PaletteProgram, &'static str) {
             }
             sp.cels.insert((1, 0), CelM { x: 0, y: 0, opacity: 255, content: CelContentM::Link(0), ud: None });
             (sp, PaletteProgram::Auto, "indexed-transparent-sweep")
+        }
+        0 if i % 4000 == 8 => {
+            let (sp, _) = wide_stack(rng);
+            (sp, PaletteProgram::Auto, "layers-beyond-16-bits")
         }
         0 if i % 100 == 4 => {
             // > 256 frames: links whose target frame index does not fit in a byte
